@@ -259,6 +259,7 @@ def run(ctx: Ctx):
                 elif b is not None and b != r:
                     ctx.count("core_form", "evaluate(core) != reference (C03's subject)")
             ctx.sample({"family": fam, "sugared": sugar, "core": core}, limit=8)
+    translation_cases(ctx)
     ctx.obligation("sugared constraints evaluate like their hand-expanded documented core forms (verified reference on the core form) on all explored trees", not ctx.violations)
     if not ok and not ctx.violations:
         ctx.violation("proof-obligation-broken", "a proof obligation of C08 no longer checks", {"broken": [n for n, o, _ in ctx.obligations if not o]}, found_input=False)
@@ -267,6 +268,7 @@ def run(ctx: Ctx):
         [
             "PARTIAL: the emitter's XPath elimination, naming and closure code is not modelled; the theorems cover the logic it relies on (derived connectives, quantifier push-in); the translation itself is validated per template instance against core forms written by hand from the documentation",
             "the hand-expanded core forms are part of the trusted base of this check (templates in harness/props/c08.py)",
+            "XPath child step: the translation is modelled (XPath.childMTrees) and proved to mean 'the i-th T-labelled child' (xpath_child_all / xpath_child_ex); ISLa's own match expressions for V.T[i] are compared with the model's as sets for every (V, T, i) of the fixed and of random grammars; the descendant axis and chains of steps are validated by templates only",
         ],
     )
 
